@@ -49,7 +49,7 @@ func foreignControllerTests(fn *ssa.Function) []foreignController {
 				// UID comparison
 				var uidSide, ownSide ssa.Value
 				for _, pr := range [][2]ssa.Value{{bo.X, bo.Y}, {bo.Y, bo.X}} {
-					if r, p, ok := flow.AccessPath(pr[0]); ok && r == gv && p == "UID" {
+					if r, p, ok := flow.AccessPathC(pr[0]); ok && r == gv && p == "UID" {
 						uidSide, ownSide = pr[0], pr[1]
 					}
 				}
@@ -116,10 +116,10 @@ func recvField(call ssa.CallInstruction, field string) bool {
 	return flow.Strict.Any(r, func(v ssa.Value) bool {
 		switch x := v.(type) {
 		case *ssa.FieldAddr:
-			_, p, _ := flow.AccessPath(x)
+			_, p, _ := flow.AccessPathC(x)
 			return p == field || strings.HasSuffix(p, "."+field)
 		case *ssa.Field:
-			_, p, _ := flow.AccessPath(x)
+			_, p, _ := flow.AccessPathC(x)
 			return p == field || strings.HasSuffix(p, "."+field)
 		}
 		return false
